@@ -73,7 +73,7 @@ CHECKS = {
  'C15': ('exploration', 'deviation-bounded stateless DFS over per-bulk_write accepted-byte choices; in-memory part only so far',
          'Every bulk_write of a session (connect with signature, shell, stat, 3-WRTE push, pull) may accept all / 1 / len-1 / half of the bytes and reports the count: all placements of <=2 '
          '(thorough 3) deviations, plus global capacities 1..4095, both twins; whenever a call returns normally the device model must have received exactly the byte stream of the unlimited run.',
-         'trusts adbsim; the real-socket half of C15 (loopback with small SO_SNDBUF) is exercised by C18's session part once built', '4/C15'),
+         'trusts adbsim; the real-socket half of C15 (loopback with small SO_SNDBUF) is exercised by the loopback part added with C18', '4/C15'),
 }
 NOT_YET = 'check not built yet in this round (planned, see DESIGN.md section 4); not claimed until it runs'
 
